@@ -433,7 +433,9 @@ func verifC27CommandGen() *rapid.Generator[verifC27Command] {
 				return &resetChannelWriteFenceToPreCutoverCmd{req: v}
 			})
 		case "CommitChannelLeaderTransfer":
-			c = verifC27JSON(t, family, EncodeCommitChannelLeaderTransferCommand, func(v metadb.ChannelMigrationLeaderTransferRequest) command { return &commitChannelLeaderTransferCmd{req: v} })
+			c = verifC27JSON(t, family, EncodeCommitChannelLeaderTransferCommand, func(v metadb.ChannelMigrationLeaderTransferRequest) command {
+				return &commitChannelLeaderTransferCmd{req: v}
+			})
 		case "AddChannelLearner":
 			c = verifC27JSON(t, family, EncodeAddChannelLearnerCommand, func(v metadb.ChannelMigrationAddLearnerRequest) command { return &addChannelLearnerCmd{req: v} })
 		case "PromoteLearnerAndRemoveReplica":
@@ -645,7 +647,9 @@ func TestVerifC27FsmResults(t *testing.T) {
 		k.SetNonTrivial(rejected > 0)
 		k.Label("codec=fsm.result." + name)
 		k.LabelIf(errMut == nil, "fsm.result: mutated frame accepted")
-		k.Sample(func() any { return fmt.Sprintf("fsm result %s frame=%dB prefixesRejected=%d mutation=%s@%d", name, len(enc), rejected, m.Kind, m.Pos) })
+		k.Sample(func() any {
+			return fmt.Sprintf("fsm result %s frame=%dB prefixesRejected=%d mutation=%s@%d", name, len(enc), rejected, m.Kind, m.Pos)
+		})
 	})
 }
 
@@ -685,7 +689,9 @@ func TestVerifC27FsmGarbage(t *testing.T) {
 		k.SetNonTrivial(len(raw) > 2)
 		k.Label("codec=fsm garbage")
 		k.Label(fmt.Sprintf("fsm garbage: shape %d accepted=%v", shape, err == nil))
-		k.Sample(func() any { return fmt.Sprintf("fsm garbage shape=%d type=%d %dB %x err=%v", shape, typ, len(raw), verifC27Trunc(raw), err) })
+		k.Sample(func() any {
+			return fmt.Sprintf("fsm garbage shape=%d type=%d %dB %x err=%v", shape, typ, len(raw), verifC27Trunc(raw), err)
+		})
 	})
 }
 
